@@ -754,6 +754,12 @@ func c14EndToEnd(c *Ctx, cases *[]Case, sub func() *rand.Rand) {
 			case 3, 4:
 				items = append(items, c14Item{ctrl: ptts[rng.Intn(len(ptts))]})
 			default:
+				if rng.Intn(3) == 0 {
+					// a data frame too short to carry a frame type (declared length 1 or 2): it is refused - and has to be
+					// consumed, or nothing behind it on the data port is ever seen
+					items = append(items, c14Item{typ: []string{"A", "AR"}[rng.Intn(2)]})
+					break
+				}
 				items = append(items, c14Item{ctrl: noise[rng.Intn(len(noise))]})
 			}
 		}
@@ -1256,6 +1262,37 @@ func c14EndToEnd(c *Ctx, cases *[]Case, sub func() *rand.Rand) {
 						return
 					case <-time.After(50 * time.Millisecond):
 					}
+				}
+				if i%7 == 5 && !stalled {
+					// the link is lost while the TNC still holds the data (its last report was BUFFER n > 0, never 0): Flush
+					// has to say so - now and on every later call - and must never report success
+					rep["link_lost_before_buffer_0"] = true
+					env.sim.sendCtrl("DISCONNECTED")
+					env.sim.sendCtrl("NEWSTATE DISC")
+					select {
+					case ferr := <-done:
+						if ferr == nil {
+							c.Violate("C14:flush-nil-after-link-loss", "Flush returned nil when the link was lost although the TNC never reported an empty buffer", rep)
+							return
+						}
+					case <-time.After(c14Watch):
+						c.Violate("C14:flush-hang", "Flush did not return within 5 s of the loss of the link", rep)
+						return
+					}
+					for k := 0; k < 24; k++ {
+						var ferr error
+						hang, pv := c14Watch1(c14Watch, func() { ferr = fl.Flush() })
+						if hang || pv != nil {
+							c.Violate("C14:flush-hang", fmt.Sprintf("Flush after the loss of the link: hang=%v panic=%v", hang, pv), rep)
+							return
+						}
+						if ferr == nil {
+							c.Violate("C14:flush-nil-after-link-loss", fmt.Sprintf("Flush call %d after the loss of the link returned nil although the TNC never reported an empty buffer", k+1), rep)
+							return
+						}
+					}
+					c.Res.Distribution["e2e-tx-flush-after-link-loss(oracle only)"]++
+					return
 				}
 				env.sim.Drain()
 				select {
